@@ -69,6 +69,12 @@ func ParseKern(src []byte) (Kern, int, error) {
 		return Kern{}, 0, fmt.Errorf("unsupported kern table version: %d", major)
 	}
 
+	// every subtable starts with a header of at least 6 bytes :
+	// reject counts that the table cannot hold before allocating
+	if uint64(numTables)*6 > uint64(len(src)) {
+		return Kern{}, 0, fmt.Errorf("reading Kern: invalid number of subtables %d", numTables)
+	}
+
 	out := make([]KernSubtable, numTables)
 	var (
 		err    error
